@@ -301,8 +301,22 @@ func (self *Interpreter) infixHelper(lhs ast.AnalyzedExpression, rhs ast.Analyze
 		case pAst.PowerInfixOperator:
 			intRes = int64(math.Pow(float64(lhsInt.Inner), float64(rhsInt.Inner)))
 		case pAst.ShiftLeftInfixOperator:
+			if rhsInt.Inner < 0 {
+				return nil, nil, value.NewRuntimeErr(
+					fmt.Sprintf("Negative shift count: %d", rhsInt.Inner),
+					value.ValueErrorKind,
+					rhs.Span(),
+				)
+			}
 			intRes = lhsInt.Inner << rhsInt.Inner
 		case pAst.ShiftRightInfixOperator:
+			if rhsInt.Inner < 0 {
+				return nil, nil, value.NewRuntimeErr(
+					fmt.Sprintf("Negative shift count: %d", rhsInt.Inner),
+					value.ValueErrorKind,
+					rhs.Span(),
+				)
+			}
 			intRes = lhsInt.Inner >> rhsInt.Inner
 		case pAst.BitOrInfixOperator:
 			intRes = lhsInt.Inner | rhsInt.Inner
